@@ -71,7 +71,7 @@ impl<T> BTreeSet<T> {
 impl<T: Key> BTreeSet<T> {
     pub fn insert(&mut self, value: T) -> bool {
         let Some(i) = value.to_idx() else {
-            crate::verif_capacity!("BTreeSet key outside the model range")
+            crate::verif_capacity!("VERIF-CAPACITY: BTreeSet key outside the model range")
         };
 
         let fresh = self.mask & bit(i) == 0;
